@@ -28,6 +28,7 @@ type xferOpts struct {
 	relayTmux  []string // per relay: "" (not in tmux) | "normal" | "control"
 	tunnel     bool     // client installs a tunnel connector
 	noListen   bool     // server cannot listen (tunnel impossible)
+	relayConnDead bool  // the relays' tunnel connectors towards the next machine return nothing
 	cliWindows bool     // client affected by Windows
 	srvWindows bool     // server behaves like a Windows server (id suffix 10, '!\n' framing)
 	srvTmux    string   // server inside tmux: "" | "normal" | "control"
@@ -115,6 +116,7 @@ type xferWorld struct {
 	endAt        time.Duration
 	execs        map[*verifsim.Proc]verifsim.ExecHandler
 	markUp       int
+	markUpLast   int // offset in the last up link at which the current transfer began
 	markDown     int
 	transferNo   int
 	clientDoneAt time.Duration // first quiescent point at which the client was seen idle again
@@ -187,6 +189,9 @@ func (x *xferWorld) downLast() *verifsim.Link { return x.down[len(x.down)-1] }
 // it reaches ports on the next machine towards the server only.
 func (x *xferWorld) connector(proc string, hop int) func(int) net.Conn {
 	return func(port int) net.Conn {
+		if hop > 0 && x.o.relayConnDead {
+			return nil
+		}
 		if hop > 0 && x.o.relayConnectDelay > 0 {
 			// a relay whose own connection towards the next hop takes its time
 			verifsim.Sleep(x.o.relayConnectDelay)
@@ -527,6 +532,7 @@ func vTmuxEscape(data []byte) string {
 func (x *xferWorld) launchServer() {
 	o := x.o
 	x.markUp, x.markDown = x.up[0].NSentInt(), x.downLast().NSentInt()
+	x.markUpLast = x.upLast().NSentInt()
 	x.termMark = x.term.NSentInt()
 	x.server.Start("server.main", func() int {
 		if o.serverMain != nil {
